@@ -185,8 +185,20 @@ def check_label(case, ctx):
         # applies to the labelling
         np_arg = npixels if not case.get('npixels_pair') else \
             (npixels, case['npixels_pair'])
-        sf = SourceFinder(np_arg, connectivity=conn, deblend=False,
-                          progress_bar=False)
+        if case.get('finder_reconfigured'):
+            # a finder built for the other connectivity, used once, then
+            # re-configured through its public attribute: the next call must
+            # see the current value
+            ctx.event('sourcefinder_reconfigured')
+            sf = SourceFinder(np_arg, connectivity=12 - conn, deblend=False,
+                              progress_bar=False)
+            with warnings.catch_warnings():
+                warnings.simplefilter('ignore')
+                sf(d_in, t_in, mask=mask)
+            sf.connectivity = conn
+        else:
+            sf = SourceFinder(np_arg, connectivity=conn, deblend=False,
+                              progress_bar=False)
         s2 = sf(d_in, t_in, mask=mask)
         require(s2 is not None and np.array_equal(s2.data, ref),
                 'sourcefinder_differs')
@@ -203,6 +215,7 @@ def label_cases(draw):
         'rep': draw(st.sampled_from(['float', 'float', 'int', 'quantity',
                                      'float32'])),
         'finder': draw(st.integers(0, 5)) == 0,
+        'finder_reconfigured': draw(st.booleans()),
         'npixels_pair': draw(st.sampled_from([None, 1, 3, 50]))}
     if draw(st.integers(0, 3)) == 0:
         t2, _ = draw(palette_image(shape, palette=pal, nonfinite=False))
